@@ -8,7 +8,7 @@
    Since every prefix of a schedule is a schedule, each statement holds at every moment of every execution.
    PARTIAL with respect to the property text: adequacy of this model for C11 and the compiler is trusted. *)
 From Coq Require Import ZArith List Bool Arith.
-From Zix Require Import RingConcModel RingConcProofs0 RingConcProofsB RingConcProofsC RingConcProofsF.
+From Zix Require Import RingConcModel RingConcProofs0 RingConcProofsB RingConcProofsC RingConcProofsF RingConcProofsS.
 Import ListNotations.
 Local Open Scope Z_scope.
 
@@ -19,18 +19,20 @@ Theorem ring_no_race : forall k wp rp sched, 0 <= k <= 31 ->
 Proof. intros. apply no_race. apply faithful_good. assumption. Qed.
 Print Assumptions ring_no_race.
 
-(* walking the reader's results in call order over the committed byte stream: every successful read and
-   peek returned exactly the committed bytes at the current stream position (nothing duplicated, reordered,
-   torn, or seen before its commit), reads and skips advance the position and never pass the committed end.
-   If the reader never skips, the bytes returned by its reads, concatenated, are a prefix of the bytes of
-   committed writes, concatenated. *)
+(* [writes_committed s] is read off the writer's own call and result logs: the bytes of its successful writes
+   and of the successful amends of its committed transactions, in call order.  Walking the reader's results
+   in call order over that stream: every successful read and peek returned exactly the committed bytes at
+   the current stream position (nothing duplicated, reordered, torn, or seen before its commit), reads and
+   skips advance the position and never pass the committed end.  If the reader never skips, the bytes
+   returned by its reads, concatenated, are a prefix of the bytes of committed writes, concatenated. *)
 Theorem ring_reads_prefix_of_commits : forall k wp rp sched, 0 <= k <= 31 ->
   let s := run (faithful k) wp rp sched in
-  stream_ok (committed s) 0 (rev (rresl (sr s))) = true /\
+  stream_ok (writes_committed s) 0 (rev (rresl (sr s))) = true /\
   (no_skip (rresl (sr s)) = true ->
-   exists rest, committed s = read_bytes (rev (rresl (sr s))) ++ rest).
+   exists rest, writes_committed s = read_bytes (rev (rresl (sr s))) ++ rest).
 Proof.
-  intros k wp rp sched Hk s. split.
+  intros k wp rp sched Hk s. unfold s.
+  rewrite <- (committed_is_writes (faithful k) wp rp sched (faithful_good k Hk)). split.
   - exact (reads_stream_ok (faithful k) wp rp sched (faithful_good k Hk)).
   - exact (reads_prefix (faithful k) wp rp sched (faithful_good k Hk)).
 Qed.
@@ -41,9 +43,11 @@ Print Assumptions ring_reads_prefix_of_commits.
 Theorem ring_nothing_lost : forall k wp rp sched, 0 <= k <= 31 ->
   let s := run (faithful k) wp rp sched in
   both_idle wp rp s ->
-  contents (faithful k) s = skipn (Z.to_nat (consumed (rresl (sr s)))) (committed s).
+  contents (faithful k) s = skipn (Z.to_nat (consumed (rresl (sr s)))) (writes_committed s).
 Proof.
-  intros k wp rp sched Hk s _. exact (nothing_lost (faithful k) wp rp sched (faithful_good k Hk)).
+  intros k wp rp sched Hk s _. unfold s.
+  rewrite <- (committed_is_writes (faithful k) wp rp sched (faithful_good k Hk)).
+  exact (nothing_lost (faithful k) wp rp sched (faithful_good k Hk)).
 Qed.
 Print Assumptions ring_nothing_lost.
 
@@ -80,6 +84,12 @@ Proof.
 Qed.
 Print Assumptions ring_wait_free_progress.
 
+(* the model's ghost stream [committed] (bytes stored below the published write head) is that same stream *)
+Theorem ring_committed_is_writes : forall k wp rp sched, 0 <= k <= 31 ->
+  let s := run (faithful k) wp rp sched in committed s = writes_committed s.
+Proof. intros k wp rp sched Hk. exact (committed_is_writes (faithful k) wp rp sched (faithful_good k Hk)). Qed.
+Print Assumptions ring_committed_is_writes.
+
 (* the invariant of DESIGN.md Appendix B holds in every reachable state (the lemma the above rest on) *)
 Theorem ring_invariant : forall k wp rp sched, 0 <= k <= 31 -> Inv (faithful k) (run (faithful k) wp rp sched).
 Proof. intros. apply run_inv. apply faithful_good. assumption. Qed.
@@ -104,6 +114,6 @@ Example ring_example :
                ++ repeat (true, O) 5 ++ repeat (false, O) 5 in
   let s := run (faithful 2) wp rp sched in
   rev (rresl (sr s)) = [RrRead 2 [1; 2]; RrPeek 1 [3]; RrSkip 1; RrRead 2 [4; 5]; RrRead 2 [6; 7]] /\
-  committed s = [1; 2; 3; 4; 5; 6; 7] /\ contents (faithful 2) s = [] /\ both_idle wp rp s /\
+  writes_committed s = [1; 2; 3; 4; 5; 6; 7] /\ contents (faithful 2) s = [] /\ both_idle wp rp s /\
   race (sm s) = false.
 Proof. vm_compute. repeat split; reflexivity. Qed.
